@@ -261,10 +261,6 @@ func cmdChurn(args []string) {
 		}
 		doomed = append(doomed, raw)
 	}
-	for _, raw := range doomed {
-		raw.(*net.TCPConn).SetLinger(0)
-		raw.Close()
-	}
 	// ... and with a client that asked for far more than the socket buffers hold and does not read: its connection
 	// goroutine is blocked inside a reply write when Stop arrives
 	if sr, err := net.DialTimeout("tcp", fmt.Sprintf("127.0.0.1:%d", cr.plain), time.Second); err == nil {
@@ -274,6 +270,11 @@ func cmdChurn(args []string) {
 		}
 		open = append(open, sr)
 		time.Sleep(50 * time.Millisecond)
+	}
+	// the resets come last, immediately before Stop (the server notices a reset within microseconds of being scheduled)
+	for _, raw := range doomed {
+		raw.(*net.TCPConn).SetLinger(0)
+		raw.Close()
 	}
 	stopWatched := func() string {
 		done := make(chan error, 1)
